@@ -38,6 +38,8 @@ def jobs(tier):
         js.append(("job_int_scalar_codec", dict(_name="scalar codec %s" % g, gname=g)))
     js.append(("job_ed_scalar_codec", dict(_name="scalar codec Ed25519")))
     js.append(("job_json_ground", dict(_name="json key order / whitespace (ground)")))
+    for g in ("toy11", "I1024", "Ed25519"):
+        js.append(("job_matrix", dict(_name="session matrix on the plain package: %s (ground)" % g, gname=g)))
     return js
 
 
@@ -110,6 +112,13 @@ def job_format(J, qn, cls, lens):
                         cex=cex, oracle="format")
 
 
+def job_matrix(J, gname):
+    from checks import matrix
+    r = matrix.session_matrix((gname,))
+    J.ground("every session of the matrix on %s (all roles on shared parameter objects, one process, both orders) emits and "
+             "accepts the released format" % gname, r is None, r, oracle="format", args=dict(cls="A", pw=b"pw", idA=b"a", idB=b"b", x=5))
+
+
 def job_json_ground(J):
     v, detail = oracle_format("A", b"pw", b"a", b"b", 5, ground_only=True)
     J.ground("reference-encoded JSON with shuffled keys and whitespace restores on every shipped set and role", not v,
@@ -145,7 +154,7 @@ def oracle_format(cls, pw, idA, idB, x, ground_only=False):
     for nm in ("Ed25519", "I1024", "I2048", "I3072", "toy11"):
         params = C.params_by_name(nm)
         q = C.group_order(params.group)
-        for c in ("ABS" if ground_only else cls):
+        for c in "ABS":
             def mk(cc, xx):
                 e = C.entropy_for_scalar(params.group, xx)
                 if cc == "S":
@@ -172,6 +181,10 @@ def oracle_format(cls, pw, idA, idB, x, ground_only=False):
                 oa, ob = C.finish_outcome(a, peer), C.finish_outcome(b, peer)
                 if oa != ob:
                     return (True, "resumed session finishes differently on %s class %s x=%d" % (nm, c, xx))
+    from checks import matrix
+    r = matrix.session_matrix()
+    if r:
+        return (True, r)
     return (False, "format as released")
 
 
